@@ -61,6 +61,8 @@ pub struct Ctx {
     pub ragc_checked: PathBuf,
     /// this harness built with overflow checks (C18 only)
     pub vcheck_checked: PathBuf,
+    /// schedule explorer built against the queue source (C05, C06)
+    pub vshuttle: PathBuf,
     pub scratch: PathBuf,
     pub known: KnownFindings,
     /// replay mode: no known-finding tolerance for panics inside targets etc.
